@@ -6,7 +6,7 @@ from .engine import AUTO
 from .runner import scenario, sim_case
 from .workloads import batch_policy, pick_chunks
 
-ROLES = ["idle", "owner", "subscriber", "caller", "routed-owner", "both", "unsent-output", "everything"]
+ROLES = ["idle", "owner", "subscriber", "caller", "routed-owner", "both", "unsent-output", "everything", "refused"]
 PHASES_RAW = ["between", "mid-prefix", "mid-message", "after-zero-length"]
 PHASES_WS = ["mid-request-line", "mid-headers", "after-101", "mid-ws-header", "mid-ws-payload", "mid-fragmented", "between"]
 ENDINGS_RAW = ["fin", "rst", "oversize", "bad-json", "non-object", "stray-response", "response-send-fails", "response-send-fails-buffer-full"]
@@ -67,6 +67,19 @@ def connend(case, res):
                 S.request(V, "add", {"path": "v/s", "value": S.next_val(V)})
                 S.request(V, "add", {"path": "v/m", "timeout": 2})
                 S.request(V, "add", {"path": "v/x", "value": 0, "fetchOnly": True})
+            if role == "refused":
+                # V has been told "no" in every way the daemon knows, including the path index running out of room for it
+                from .model import colliding_paths
+                eo = int(S.cfg.get("CONFIG_ELEMENT_TABLE_ORDER", 13))
+                for pth in colliding_paths(eo, min(33, (1 << eo)), prefix="v/k"):
+                    S.request(V, "add", {"path": pth, "value": 1})
+                S.request(V, "add", {"path": "o/s", "value": 1})
+                S.request(V, "change", {"path": "o/s", "value": 2})
+                S.request(V, "remove", {"path": "o/m"})
+                S.request(V, "fetch", {"id": "vf", "path": {"startsWith": "v/"}})
+                S.request(V, "fetch", {"id": "vf", "path": {"startsWith": "o/"}})
+                S.request(V, "unfetch", {"id": "nope"})
+                S.request(V, "set", {"path": "nope", "value": 1})
             if role in ("subscriber", "both", "everything", "unsent-output"):
                 S.request(V, "fetch", {"id": "vf"})
                 S.request(V, "fetch", {"id": 17, "path": {"startsWith": "o/"}})
